@@ -138,6 +138,40 @@ def block_corners(asm: dict, blk: dict) -> List[Tuple[int, int, int]]:
     return [base[p[i]] for i in range(8)]
 
 
+BM_SIDE_CORNERS = {"bottom": (0, 1, 2, 3), "top": (4, 5, 6, 7), "left": (0, 3, 4, 7), "right": (1, 2, 5, 6), "front": (0, 1, 4, 5), "back": (2, 3, 6, 7)}
+
+
+def cut_sides(asm: dict, cut: dict, rots: Optional[List[int]] = None):
+    """A face between two face-adjacent blocks that the user declares as a merged patch pair (master on block `a`, slave on
+    block `b`): side name on a, side name on b, the four lattice points of the face."""
+    blk = lambda b: asm["blocks"][b] if rots is None else dict(asm["blocks"][b], rot=rots[b])
+    ca, cb = block_corners(asm, blk(cut["a"])), block_corners(asm, blk(cut["b"]))
+    shared = set(ca) & set(cb)
+    side = lambda cs: next(n for n, idx in BM_SIDE_CORNERS.items() if {cs[i] for i in idx} == shared)
+    return side(ca), side(cb), shared
+
+
+def vertex_keys(asm: dict, b: int) -> List[Any]:
+    """What identifies the mesh vertex of each corner of block b: its lattice point and, for corners on a slave patch of a
+    merged pair, the names of those slave patches (such corners get vertices of their own: Mesh._add_vertices)."""
+    cs = block_corners(asm, asm["blocks"][b])
+    cuts = [(k, cut_sides(asm, cut)[2]) for k, cut in enumerate(asm.get("cuts", [])) if cut.get("b") == b]
+    # whole lattice planes declared as merged interfaces: master patch on the faces of the blocks below, one slave patch
+    # (one name for all of them) on the faces of the blocks above
+    for k, cut in enumerate(asm.get("cuts", [])):
+        if "plane" in cut:
+            d, pos = cut["plane"]
+            if asm["blocks"][b]["cell"][d] == pos:
+                cuts.append((k, {c for c in cs if c[d] == pos}))
+    if not cuts:
+        return list(cs)
+    keys = []
+    for c in cs:
+        slaves = tuple(sorted(f"s{k}" for k, pts in cuts if c in pts))
+        keys.append((c, slaves) if slaves else c)
+    return keys
+
+
 def families(asm: dict) -> Tuple[Dict[Tuple[int, int], int], Dict[int, List[Tuple[int, int]]]]:
     """Union-find over (block, axis): same family when two of their wires share a lattice vertex pair."""
     nb = len(asm["blocks"])
@@ -150,8 +184,11 @@ def families(asm: dict) -> Tuple[Dict[Tuple[int, int], int], Dict[int, List[Tupl
         return x
 
     owner: Dict[frozenset, int] = {}
+    dead = set(asm.get("deleted", []))  # operations excluded with mesh.delete(): no block, no shared edges
     for b, blk in enumerate(asm["blocks"]):
-        cs = block_corners(asm, blk)
+        if b in dead:
+            continue
+        cs = vertex_keys(asm, b)
         for a in range(3):
             for p in AXIS_PAIRS[a]:
                 key = frozenset((cs[p[0]], cs[p[1]]))
@@ -163,6 +200,8 @@ def families(asm: dict) -> Tuple[Dict[Tuple[int, int], int], Dict[int, List[Tupl
     fam_of = {}
     members: Dict[int, List[Tuple[int, int]]] = {}
     for x in range(3 * nb):
+        if x // 3 in dead:
+            continue
         r = find(x)
         fam_of[(x // 3, x % 3)] = r
         members.setdefault(r, []).append((x // 3, x % 3))
@@ -445,11 +484,49 @@ def gen_case(rng: random.Random, max_blocks: int, mode: str) -> dict:
     case = {"kind": mode, "asm": asm, "chops": chops}
     if rng.random() < 0.25 and not asm.get("arcs"):
         case["stretch"] = [rng.randrange(3), rng.choice([0.5, 1.5, 2.5])]  # vertices moved between the two writes
+    if rng.random() < 0.12 and len(asm["blocks"]) > 2:
+        # one or two operations without a chop of their own are excluded with mesh.delete(): they give no block and
+        # share no edges, which may split a family (the part left without a chop is then undefined)
+        free = [b for b in range(len(asm["blocks"])) if not any(ch["block"] == b for ch in chops)]
+        if free:
+            asm["deleted"] = sorted(rng.sample(free, min(len(free), rng.choice([1, 1, 2]))))
+    if rng.random() < 0.12 and not asm.get("arcs"):
+        # a face between two blocks declared as a merged patch pair: the slave side gets vertices of its own there, so
+        # the two blocks (and whoever shares those corners) are no longer joined through the edges of that face
+        dead = set(asm.get("deleted", []))
+        live = [b for b in range(len(asm["blocks"])) if b not in dead]
+        pairs = [(a, b) for a in live for b in live if a != b
+                 and sum(abs(x - y) for x, y in zip(asm["blocks"][a]["cell"], asm["blocks"][b]["cell"])) == 1]
+        if pairs and rng.random() < 0.4:
+            # one or two whole lattice planes between blocks
+            planes = sorted({(d, max(asm["blocks"][a]["cell"][d], asm["blocks"][b]["cell"][d])) for a, b in pairs
+                             for d in range(3) if asm["blocks"][a]["cell"][d] != asm["blocks"][b]["cell"][d]})
+            chosen = [rng.choice(planes)]
+            others = [pl for pl in planes if pl[0] != chosen[0][0]]
+            if others and rng.random() < 0.6:
+                chosen.append(rng.choice(others))
+            asm["cuts"] = [{"plane": list(pl)} for pl in chosen]
+        elif pairs:
+            asm["cuts"] = [dict(zip("ab", rng.choice(pairs)))]
+            if len(pairs) > 2 and rng.random() < 0.4:
+                same = [pr for pr in pairs if pr[1] == asm["cuts"][0]["b"] and pr[0] != asm["cuts"][0]["a"]]
+                # (often a second slave patch on the same block: its corners on both faces carry two slave names)
+                a2, b2 = rng.choice(same) if same and rng.random() < 0.6 else rng.choice(pairs)
+                if {a2, b2} != set(asm["cuts"][0].values()):
+                    asm["cuts"].append({"a": a2, "b": b2})
+    if (asm.get("cuts") or asm.get("deleted")) and rng.random() < 0.7:
+        # families that the cut / the deletion left without a chop get one (so the case stays of its kind)
+        fam_of2, members2 = families(asm)
+        have = {fam_of2[(ch["block"], ch["axis"])] for ch in chops}
+        for f, mem in members2.items():
+            if f not in have and not (mode == "under" and rng.random() < 0.3):
+                b, a = rng.choice(mem)
+                chops.append({"block": b, "axis": a, "calls": gen_chop(rng, ["count", "count_c2c", "count_start"])})
     if rng.random() < (0.6 if mode == "under" else 0.15):
         gen_late(rng, case)
     # (only with chops that state their count: a count derived from a cell size sits on a rounding boundary when the
     # edge length is a whole multiple of the size, and then depends on which of the merged corners came first)
-    if rng.random() < 0.12 and len(asm["blocks"]) > 1 and all("count" in kw for ch in chops for kw in ch["calls"]):
+    if rng.random() < 0.12 and len(asm["blocks"]) > 1 and not asm.get("cuts") and all("count" in kw for ch in chops for kw in ch["calls"]):
         # one block entered with corner coordinates that differ from its neighbours' by a little less than the merging
         # tolerance along a space diagonal (rounded input): still the same vertices, still the same families
         asm["noise"] = {"block": rng.randrange(len(asm["blocks"])),
@@ -526,6 +603,27 @@ def build_mesh(case: dict, order: Optional[List[int]] = None, rots: Optional[Lis
                     else:
                         op.chop(axis, **kw)
         mesh.add(op)
+    op_of = {b: op for b, op, _ in ops}
+    for k, cut in enumerate(asm.get("cuts", [])):
+        if "plane" in cut:
+            d, pos = cut["plane"]
+            for b, op, blk in ops:
+                cs_b = block_corners(asm, blk)
+                for name, want in ((f"m{k}", pos - 1), (f"s{k}", pos)):
+                    if asm["blocks"][b]["cell"][d] == want:
+                        side = next(n for n, idx in BM_SIDE_CORNERS.items() if all(cs_b[i][d] == pos for i in idx))
+                        op.set_patch(side, name)
+            mesh.merge_patches(f"m{k}", f"s{k}")
+            continue
+        side_a, side_b, _ = cut_sides(asm, cut, rots)
+        op_of[cut["a"]].set_patch(side_a, f"m{k}")
+        op_of[cut["b"]].set_patch(side_b, f"s{k}")
+        mesh.merge_patches(f"m{k}", f"s{k}")
+    dead = set(asm.get("deleted", []))
+    for b, op, blk in ops:
+        if b in dead:
+            mesh.delete(op)
+    ops = [x for x in ops if x[0] not in dead]  # block list order = insertion order of the live operations
     if with_typo:
         return mesh, ops, fixes
     return mesh, ops
@@ -1160,7 +1258,7 @@ def oracle_preserve(case: dict, obs: dict, vertices: Optional[List[List[float]]]
         start_of: Dict[Tuple[int, int, int], Any] = {}
         wires = []
         for b, a in members[fam]:
-            cs = block_corners(asm, asm["blocks"][b])
+            cs = vertex_keys(asm, b)
             for k, p in enumerate(AXIS_PAIRS[a]):
                 wires.append((b, a, k, cs[p[0]], cs[p[1]]))
         # the source axis: direction of its own wires
@@ -1188,7 +1286,7 @@ def oracle_preserve(case: dict, obs: dict, vertices: Optional[List[List[float]]]
             b = pos_to_b[e["b"]]
             if fam_of.get((b, e["a"])) != fam or len(e["secs"]) != 1:
                 continue
-            cs = block_corners(asm, asm["blocks"][b])
+            cs = vertex_keys(asm, b)
             p = AXIS_PAIRS[e["a"]][e["k"]]
             c0, c1 = cs[p[0]], cs[p[1]]
             if vertices is not None:  # straight edges, end points as written in this file
@@ -1275,6 +1373,11 @@ def shrink_candidates(case: dict) -> List[dict]:
                     del c["asm"]["noise"]
                 elif noise["block"] > b:
                     noise["block"] -= 1
+            if c["asm"].get("deleted"):
+                c["asm"]["deleted"] = [d - (1 if d > b else 0) for d in c["asm"]["deleted"] if d != b]
+            if c["asm"].get("cuts"):
+                c["asm"]["cuts"] = [cut if "plane" in cut else {k: v - (1 if v > b else 0) for k, v in cut.items()}
+                                    for cut in c["asm"]["cuts"] if "plane" in cut or b not in cut.values()]
             out.append(c)
     for i in range(len(case["chops"])):
         c = copy.deepcopy(case)
@@ -1301,6 +1404,14 @@ def shrink_candidates(case: dict) -> List[dict]:
     if asm.get("noise"):
         c = copy.deepcopy(case)
         del c["asm"]["noise"]
+        out.append(c)
+    if asm.get("deleted"):
+        c = copy.deepcopy(case)
+        del c["asm"]["deleted"]
+        out.append(c)
+    if asm.get("cuts"):
+        c = copy.deepcopy(case)
+        del c["asm"]["cuts"]
         out.append(c)
     if any(any(v) for v in asm["jitter"].values()):
         c = copy.deepcopy(case)
